@@ -25,10 +25,10 @@ type action struct {
 }
 
 type descriptor struct {
-	Starts  int      `json:"starts"`  // start events 1..3
-	Chain   []int    `json:"chain"`   // tasks per start chain (0..2)
-	Merge   bool     `json:"merge"`   // chains merge (exclusive gateway) into a common tail task
-	Par     bool     `json:"par"`     // first chain contains a parallel block (2 concurrent tasks)
+	Starts  int      `json:"starts"` // start events 1..3
+	Chain   []int    `json:"chain"`  // tasks per start chain (0..2)
+	Merge   bool     `json:"merge"`  // chains merge (exclusive gateway) into a common tail task
+	Par     bool     `json:"par"`    // first chain contains a parallel block (2 concurrent tasks)
 	Actions []action `json:"actions"`
 	Perturb uint64   `json:"perturb"`
 }
@@ -77,14 +77,14 @@ func build(d descriptor) *gen.Graph {
 }
 
 type waiter struct {
-	id      int
-	ctx     context.Context
-	cancel  context.CancelFunc
-	res     chan bool
-	done    bool
-	val     bool
-	expired bool // harness cancelled its context
-	startedDone bool // model was already done when the waiter was started
+	id              int
+	ctx             context.Context
+	cancel          context.CancelFunc
+	res             chan bool
+	done            bool
+	val             bool
+	expired         bool // harness cancelled its context
+	startedDone     bool // model was already done when the waiter was started
 	expiredWhenDone bool
 }
 
